@@ -42,6 +42,9 @@ pub struct Profile {
     pub max_write: u32,
     /// restrict the name alphabet to ASCII (C19: builds with and without Unicode folding must agree)
     pub ascii_only: bool,
+    /// per-cent probability that a session opens with a single isolated change to an existing file
+    /// (open, seek, one of truncate / small write / set time, close) -- the "first change of a session" stratum
+    pub gambit_pct: u32,
 }
 
 impl Profile {
@@ -76,6 +79,7 @@ impl Profile {
             read_only: false,
             max_write: 3000,
             ascii_only: false,
+            gambit_pct: 15,
         }
     }
     pub fn fileio() -> Self {
@@ -194,6 +198,8 @@ pub struct Gen {
     pub prof: Profile,
     pub names: Vec<String>,
     pub left: usize,
+    pub fresh_session: bool,
+    pub queue: std::collections::VecDeque<Op>,
 }
 
 impl Gen {
@@ -227,7 +233,7 @@ impl Gen {
             }
         }
         let left = prof.steps;
-        Gen { rng, prof, names, left }
+        Gen { rng, prof, names, left, fresh_session: false, queue: std::collections::VecDeque::new() }
     }
 
     fn mangle(&mut self, name: &str) -> String {
@@ -392,6 +398,49 @@ impl StepSource for Gen {
         self.left -= 1;
         let p = self.prof.clone();
         let m = &w.model;
+        if let Some(op) = self.queue.pop_front() {
+            return Some(Step { c: 0, op, hard_at: None, sticky: false });
+        }
+        if self.fresh_session {
+            self.fresh_session = false;
+            let files: Vec<NodeId> = m.files().into_iter().filter(|n| !m.nodes[*n].content.is_empty()).collect();
+            if !p.read_only && !files.is_empty() && self.rng.below(100) < u64::from(p.gambit_pct) {
+                let n = *self.rng.pick(&files);
+                let size = m.nodes[n].content.len() as u64;
+                let cl = w.geo.cluster_bytes;
+                let path = m.path_of(n).join("/");
+                self.queue.push_back(Op::OpenFile { base: 0, path, slot: 0 });
+                let pos = match self.rng.below(6) {
+                    0 => 0,
+                    1 => size,
+                    2 => size - 1,
+                    3 => (size - 1) / cl * cl + self.rng.below(((size - 1) % cl) + 1),
+                    4 => (size / cl) * cl,
+                    _ => self.rng.below(size + 1),
+                };
+                self.queue.push_back(Op::Seek { f: 0, whence: 0, off: pos as i64 });
+                match self.rng.below(4) {
+                    0 | 1 => self.queue.push_back(Op::Truncate { f: 0 }),
+                    2 => {
+                        let (len, fill) = (self.rng.range(1, 40) as u32, self.rng.next_u64());
+                        self.queue.push_back(Op::Write { f: 0, len, fill });
+                    }
+                    _ => {
+                        let (which, t) = (self.rng.below(3) as u8, self.stamp());
+                        self.queue.push_back(Op::SetTime { f: 0, which, t });
+                    }
+                }
+                if self.rng.chance(1, 2) {
+                    self.queue.push_back(Op::Flush { f: 0 });
+                }
+                self.queue.push_back(Op::CloseFile { f: 0 });
+                if self.rng.chance(1, 2) {
+                    self.queue.push_back(Op::Checkpoint);
+                }
+                let op = self.queue.pop_front().unwrap();
+                return Some(Step { c: 0, op, hard_at: None, sticky: false });
+            }
+        }
         let c = self.rng.below(u64::from(p.clients)) as u8;
         let cluster = w.geo.cluster_bytes;
         // slots owned by this client
@@ -534,7 +583,10 @@ impl StepSource for Gen {
                 Op::Clock { t: Stamp::from_ticks(t) }
             }
             17 => Op::Checkpoint,
-            _ => Op::Remount { how: self.rng.below(3) as u8 },
+            _ => {
+                self.fresh_session = true;
+                Op::Remount { how: self.rng.below(3) as u8 }
+            }
         };
         let hard_at = if p.hard_fault > 0 && self.rng.below(1000) < u64::from(p.hard_fault) { Some(self.rng.range(1, 40)) } else { None };
         Some(Step { c, op, hard_at, sticky: false })
